@@ -193,7 +193,6 @@ register(
 
 register(
     "C15",
-    claimed=False, na_reason="check being completed (ScopedRemover proofs in progress)",
     lean_modules=["EventppVerif.Properties.C15"],
     theorems=[],
     suites=[cl_suite("rem", 400, 10000, rule="random ScopedRemover histories over 2 callback lists and 3 remover names: add through remover (append/prepend/insert), remove through "
